@@ -17,6 +17,11 @@ func valueOperator(_ *dataTreeNavigator, context Context, expressionNode *Expres
 
 	for el := context.MatchingNodes.Front(); el != nil; el = el.Next() {
 		clone := expressionNode.Operation.CandidateNode.Copy()
+		// the literal is produced for this context node: it belongs to the same document of the same file
+		candidate := el.Value.(*CandidateNode)
+		clone.document = candidate.GetDocument()
+		clone.filename = candidate.GetFilename()
+		clone.fileIndex = candidate.GetFileIndex()
 		results.PushBack(clone)
 	}
 
